@@ -132,7 +132,7 @@ class Verifier(ExecMixin, Engine):
                     for i, ens in enumerate(enss):
                         self.emit(ctx, s1, 'post', 'exc.%s.%d' % (cls, i), self.spec_bool(ens, s1, pctx), note=ens)
         if c.ensures or c.cases:
-            if n_normal == 0 and not c.must_raise:
+            if n_normal == 0:
                 self.emit(ctx, pre, 'cover', 'normal_exit', B(False), expect_sat=True, note='no normal exit reachable')
         new = self.obligations[start:]
         for ob in new:
